@@ -135,6 +135,16 @@ def scenarios(tier):
                          {'name': 'C', 'cas': [0x30], 'win': 255}],
               'msgs': [msg(0x10, 'p2p', 0x20, seg * 3 - 2), msg(0x11, 'p2p', 0x30, seg * 2 - 1)]}
         out.append(sc)
+        # a second message on the same pair submitted 0.3 ms after the acknowledgement of the first is on the bus: it lands
+        # while the (held) job thread is inside the pass that removes the finished session
+        for (wa, wb) in ((1, 1), (255, 255)):
+            base = two(dll, wa, wb)
+            base['msgs'] = [msg(0x10, 'p2p', 0x20, seg * 2 - 2)]
+            nfr = baseline_frames(base)
+            sc = dict(base, late_ok=True)
+            sc['msgs'] = [msg(0x10, 'p2p', 0x20, seg * 2 - 2),
+                          dict(msg(0x10, 'p2p', 0x20, seg * 2 - 1, pat=1), after=nfr, after_dt=3e-4, may_refuse=True)]
+            out.append(sc)
         # pre-emption while timeouts are being served: the same transfers with every single frame lost
         for (wa, wb) in (((1, 1),) if quick else ((1, 1), (2, 2), (255, 255))):
             npk = 2 if quick else 3
